@@ -32,7 +32,18 @@ pub struct RegisterAllocator {
 
     /// Free list for reusing registers
     free_list: Vec<u8>,
+
+    /// Verification hook (only with `--cfg tsrun_verif`): which registers are held
+    #[cfg(tsrun_verif)]
+    verif_live: Vec<bool>,
 }
+
+/// Verification hook (only with `--cfg tsrun_verif`): how often a register was freed that was
+/// not held, or handed out while still held, since the process started.
+#[cfg(tsrun_verif)]
+pub static VERIF_BAD_FREES: std::sync::atomic::AtomicU64 = std::sync::atomic::AtomicU64::new(0);
+#[cfg(tsrun_verif)]
+pub static VERIF_BAD_ALLOCS: std::sync::atomic::AtomicU64 = std::sync::atomic::AtomicU64::new(0);
 
 impl RegisterAllocator {
     /// Create a new register allocator
@@ -42,6 +53,18 @@ impl RegisterAllocator {
             saved: Vec::new(),
             max_used: 0,
             free_list: Vec::new(),
+            #[cfg(tsrun_verif)]
+            verif_live: vec![false; 256],
+        }
+    }
+
+    #[cfg(tsrun_verif)]
+    fn verif_take(&mut self, r: u8) {
+        if let Some(slot) = self.verif_live.get_mut(r as usize) {
+            if *slot {
+                VERIF_BAD_ALLOCS.fetch_add(1, std::sync::atomic::Ordering::Relaxed);
+            }
+            *slot = true;
         }
     }
 
@@ -49,6 +72,8 @@ impl RegisterAllocator {
     pub fn alloc(&mut self) -> Result<Register, JsError> {
         // First try to reuse a freed register
         if let Some(r) = self.free_list.pop() {
+            #[cfg(tsrun_verif)]
+            self.verif_take(r);
             return Ok(r);
         }
 
@@ -62,11 +87,22 @@ impl RegisterAllocator {
         let r = self.next;
         self.next += 1;
         self.max_used = self.max_used.max(self.next);
+        #[cfg(tsrun_verif)]
+        self.verif_take(r);
         Ok(r)
     }
 
     /// Free a register for reuse
     pub fn free(&mut self, r: Register) {
+        #[cfg(tsrun_verif)]
+        {
+            if let Some(slot) = self.verif_live.get_mut(r as usize) {
+                if !*slot {
+                    VERIF_BAD_FREES.fetch_add(1, std::sync::atomic::Ordering::Relaxed);
+                }
+                *slot = false;
+            }
+        }
         // Only add to free list if it's the most recently allocated
         // This keeps register usage contiguous
         if r == self.next.saturating_sub(1) {
@@ -88,6 +124,10 @@ impl RegisterAllocator {
         let start = self.next;
         self.next += count;
         self.max_used = self.max_used.max(self.next);
+        #[cfg(tsrun_verif)]
+        for r in start..self.next {
+            self.verif_take(r);
+        }
         Ok(start)
     }
 
@@ -102,6 +142,10 @@ impl RegisterAllocator {
             self.next = pos;
             // Clear free list since we're restoring to an earlier state
             self.free_list.retain(|&r| r < pos);
+            #[cfg(tsrun_verif)]
+            for slot in self.verif_live.iter_mut().skip(pos as usize) {
+                *slot = false;
+            }
         }
     }
 
